@@ -202,4 +202,26 @@ theorem safeRun_of_no_len : ∀ (ops : List POp) (n : NodeM), (∀ o ∈ ops, o.
     exact ⟨safeAt_of_not_len o.op (h o (by simp)) o.path n,
       safeRun_of_no_len os _ (fun o' ho' => h o' (by simp [ho']))⟩
 
+
+/-! ### `Len` on loaded nodes -/
+
+theorem safeHere_of_lenSafe (n : NodeM) (op : Op) (hl : n.lenSafe = true) : n.safeHere op = true := by
+  cases op <;> first | rfl | exact hl
+
+/-- after an iteration (`Values`/`Properties` to the end) the node is completely loaded -/
+theorem lenSafe_after_iter (n : NodeM) (hr : n.repOk = true) : (n.stepHere .iter).2.lenSafe = true := by
+  obtain ⟨c1, c2, c3⟩ := checkRaw_spec n hr
+  simp only [NodeM.stepHere]
+  cases hcr : n.checkRaw with
+  | raw v lock => rw [hcr] at c3; simp [NodeM.isRaw] at c3
+  | arrLazy pre rest => simp [NodeM.kind, NodeM.skipAll, NodeM.lenSafe, NodeM.checkRaw]
+  | objLazy pre rest => simp [NodeM.kind, NodeM.skipAll, NodeM.lenSafe, NodeM.checkRaw, mkObject]
+  | arr l st => simp [NodeM.kind, NodeM.skipAll, NodeM.lenSafe, NodeM.checkRaw]
+  | obj l st ix => simp [NodeM.kind, NodeM.skipAll, NodeM.lenSafe, NodeM.checkRaw]
+  | gone => simp [NodeM.kind, NodeM.lenSafe, NodeM.checkRaw]
+  | null => simp [NodeM.kind, NodeM.lenSafe, NodeM.checkRaw]
+  | bool b => simp [NodeM.kind, NodeM.lenSafe, NodeM.checkRaw]
+  | num x => simp [NodeM.kind, NodeM.lenSafe, NodeM.checkRaw]
+  | str x => simp [NodeM.kind, NodeM.lenSafe, NodeM.checkRaw]
+
 end SonicSpec.Ast
